@@ -283,9 +283,10 @@ func ZZ_C04_NM_DecodeNoPanic() {
 	d := ds[i]
 	buf := zzsym.BytesUpTo("buf", zzsym.Param("B_"+d.name))
 	if first := zzsym.Param("FIRST"); first >= 0 {
-		// input class "buffers whose first byte is FIRST" (e.g. 0xFF: a 9-byte count prefix), used where the
-		// fully arbitrary buffer of that size has too many paths
-		zzsym.Assume(len(buf) >= 1 && buf[0] == byte(first))
+		// input class "buffers whose byte at offset AT is FIRST" (e.g. 0xFF where a count starts: a 9-byte count
+		// prefix), used where the fully arbitrary buffer of that size has too many paths
+		at := zzsym.Param("AT")
+		zzsym.Assume(len(buf) > at && buf[at] == byte(first))
 	}
 	src := common.NewZeroCopySource(buf)
 	err := d.dec(src)
@@ -302,4 +303,10 @@ func ZZ_C04_NM_DecodeNoPanic_witness() {
 	g := new(GovernanceView)
 	err := g.Deserialization(common.NewZeroCopySource(buf))
 	zzsym.Assert(err != nil || g.View != 7, "witness: some buffer decodes to a governance view with View 7")
+}
+
+func ZZ_C04_NM_HexModel_witness() {
+	var a common.Address
+	a[19] = 0xab
+	zzsym.Assert(zzC04ToHex(&a)[:2] != "ab", "witness: the last address byte comes first in the hex string")
 }
